@@ -115,7 +115,10 @@ def plan(ctx):
         tasks.append(('prim', (s, ctx.repo, rng.randrange(1 << 30), int(nprim * f))))
     for s in bands:
         tasks.append(('band', (s, ctx.repo, rng.randrange(1 << 30), 400 if T else 60)))
-    return specs + bands, tasks
+    # fixed witnesses of the recorded findings (run on every tier so that they are re-found or seen repaired)
+    fx = dict(c12_geos.FAR_CROSSING_SPEC)
+    tasks.append(('track', (fx, ctx.repo, 0, 0, c12_geos.FAR_CROSSING_LINES)))
+    return specs + bands + [fx], tasks
 
 
 def run_task(t):
@@ -127,6 +130,40 @@ def run_task(t):
     r['label'] = args[0].get('label')
     r['spec'] = args[0]
     return r
+
+
+JOBS = max(1, min(vf.NPROC, 8))
+
+
+def line_cost(l):
+    """rough cost of one driver case (measured: ~7 us per query x column)"""
+    if l.startswith('geo\t'):
+        f = l.split('\t')
+        return (f[4].count('|') + 1) * (f[1].count('|') + 31)
+    if l.startswith('trk\t'):
+        return 70 * (l.split('\t', 2)[1].count('|') + 1)
+    return 40
+
+
+def run_model(exe, lines):
+    """Run the extracted model on the case lines in JOBS processes, balanced by estimated cost
+    (the cases are very unequal: one geo line carries ~1000 queries); deterministic."""
+    from concurrent.futures import ThreadPoolExecutor
+    n = len(lines)
+    cost = [line_cost(l) for l in lines]
+    order = sorted(range(n), key=lambda i: (-cost[i], i))
+    bins = [[] for _ in range(JOBS)]
+    load = [0] * JOBS
+    for i in order:
+        j = load.index(min(load))
+        bins[j].append(i); load[j] += cost[i]
+    bins = [sorted(b) for b in bins if b]
+    with ThreadPoolExecutor(max_workers=len(bins) or 1) as ex:
+        outs = list(ex.map(lambda b: vf.run_driver(exe, [lines[i] for i in b], 1700, 1), bins))
+    res = [None] * n
+    for b, o in zip(bins, outs):
+        for i, r in zip(b, o): res[i] = r
+    return res
 
 
 def leaf_agrees(model, impl, scale):
@@ -198,8 +235,8 @@ def process(ctx, exe, results):
     # the model
     if exe and lines:
         t0 = time.time()
-        out = vf.run_driver(exe, lines, shards=vf.NPROC)
-        ctx.log('model driver: %d case lines in %.1fs' % (len(lines), time.time() - t0))
+        out = run_model(exe, lines)
+        ctx.log('model driver: %d case lines in %.1fs (%d shards)' % (len(lines), time.time() - t0, JOBS))
         ncmp = Counter()
         for e, o in zip(expect, out):
             if e[0] == 'geo':
@@ -263,7 +300,7 @@ def run(ctx):
     ctx.stage()
     ok = translate(ctx)
     specs, tasks = plan(ctx)
-    pool = mp.get_context('fork').Pool(vf.NPROC)
+    pool = mp.get_context('fork').Pool(JOBS)
     # heavy tasks first
     order = sorted(range(len(tasks)), key=lambda i: (0 if tasks[i][0] == 'point' else 1))
     async_res = pool.map_async(run_task, [tasks[i] for i in order], chunksize=1)
@@ -310,7 +347,7 @@ def run(ctx):
                 tk.append(('point', (s, ctx.repo, rng.randrange(1 << 30), 250, None)))
             tk.append(('block', (s, ctx.repo, rng.randrange(1 << 30), 300)))
             tk.append(('track', (s, ctx.repo, rng.randrange(1 << 30), 100)))
-        with mp.get_context('fork').Pool(vf.NPROC) as p2:
+        with mp.get_context('fork').Pool(JOBS) as p2:
             res = p2.map(run_task, tk, chunksize=1)
         process(ctx, None, res)
     return ctx.finish(deep_search=deep, level='core')
